@@ -205,11 +205,11 @@ class Exec:
         if key in self._feas_cache:
             return self._feas_cache[key][1]
         s = z3.Solver()
-        s.set("timeout", 3000)
         s.add(*self.base_axioms())
         s.add(*pc)
         self.solver_calls += 1
-        r = s.check() != z3.unsat
+        from .budget import inproc_check
+        r = inproc_check(s, 3000, "feasible") != z3.unsat
         self._feas_cache[key] = (pc, r)    # holds the terms: ids of collected ASTs are reused by z3
         return r
 
@@ -226,12 +226,12 @@ class Exec:
         if key in self._ent_cache:
             return self._ent_cache[key][1]
         s = z3.Solver()
-        s.set("timeout", 3000)
         s.add(*self.base_axioms())
         s.add(*st.pc)
         s.add(z3.Not(c))
         self.solver_calls += 1
-        r = s.check() == z3.unsat
+        from .budget import inproc_check
+        r = inproc_check(s, 3000, "entails") == z3.unsat
         if not r and st.qpc:
             from .inst import pointwise_check
             self.solver_calls += 1
@@ -909,7 +909,7 @@ class Exec:
                     continue
                 items = self.iter_items(it, st1)
                 if items is None:
-                    raise _SymbolicIter(it)
+                    raise _SymbolicIter(it, st1)
 
                 def over(i, acc, st):
                     if i == len(items):
@@ -949,7 +949,7 @@ class Exec:
         try:
             yield from self._comp_unrolled(lambda env2, st2: self.expr(e.elt, env2, st2), e.generators, env, st)
         except _SymbolicIter as si:
-            yield from self.symbolic_comp(e, si.it, env, st)
+            yield from self.symbolic_comp(e, si.it, env, si.st or st)
 
     def e_GeneratorExp(self, e, env, st):
         yield from self.e_ListComp(e, env, st)
@@ -971,7 +971,7 @@ class Exec:
                 else:
                     yield PyDict(vs), st2
         except _SymbolicIter as si:
-            yield from self.symbolic_dictcomp(e, si.it, env, st)
+            yield from self.symbolic_dictcomp(e, si.it, env, si.st or st)
 
     def symbolic_dictcomp(self, e, it, env, st):
         """{key(k): val(k) for k in <symbolic map keys / items> if cond}  ->  a lambda-defined finite map.
@@ -1064,6 +1064,10 @@ class Exec:
         e2 = dict(env)
         self.assign(g.target, elem, e2, st)
         st_i = st.assume(i >= 0, i < z3.Length(it.e))
+        ri = getattr(self, "range_info", {}).get(it.e.get_id())
+        if ri is not None and ri[0].eq(it.e):
+            # the iterable is range(lo, hi, step): its i-th element is lo + i*step (instance of the range axiom at i)
+            st_i = st_i.assume(it.e[i] == ri[1] + i * ri[2], z3.Length(it.e) == ri[3])
         guard = None
         outs = []
         for c_list, st_c in self.exprs(list(g.ifs), e2, st_i):
@@ -1083,6 +1087,8 @@ class Exec:
         if gcond is not True:
             raise PyvcUnsupported("filtering comprehension over a symbolic sequence")
         vt = ty_of(v)
+        if isinstance(v, tuple) and isinstance(e.elt, ast.Tuple):
+            vt = TupleTy([ty_of(x) for x in v])      # a tuple literal per element: fixed arity, not a sequence
         out = z3.Const(fresh_name("comp"), z3.SeqSort(vt.sort))
         st2 = st.assume(z3.Length(out) == z3.Length(it.e),
                         z3.ForAll([i], z3.Implies(z3.And(i >= 0, i < z3.Length(it.e)), out[i] == coerce(v, vt))))
@@ -1168,6 +1174,19 @@ class Exec:
                 if st_ok is None:
                     return
                 st2 = st_ok
+            # an Optional operand: None raises TypeError, otherwise the operation is on the value
+            for side in (0, 1):
+                x = (l, r)[side]
+                if isinstance(x, Sym) and isinstance(x.ty, OptTy):
+                    st_ok, raises = self.guard(st2, v_not(v_is_none(x)), "TypeError", e.lineno)
+                    yield from raises
+                    if st_ok is None:
+                        return
+                    st2 = st_ok
+                    if side == 0:
+                        l = v_unwrap(x)
+                    else:
+                        r = v_unwrap(x)
             if isinstance(e.op, ast.Add) and isinstance(l, Sym) and isinstance(l.ty, SeqTy) and isinstance(r, (tuple, list)) and r:
                 r = Sym(l.ty, coerce(list(r), l.ty))
             if isinstance(e.op, ast.Add) and isinstance(r, Sym) and isinstance(r.ty, SeqTy) and isinstance(l, (tuple, list)) and l:
@@ -1859,8 +1878,8 @@ class _Captured(Exception):
 
 
 class _SymbolicIter(Exception):
-    def __init__(self, it):
-        self.it = it
+    def __init__(self, it, st=None):
+        self.it, self.st = it, st
 
 
 _EXC_CI = {}
